@@ -653,7 +653,7 @@ def ssobjects_part(run, np, SSModel, quick):
         if rng.random() > keep_frac:
             continue
         cls, (A, B, C, D, h, w) = systems[int(rng.integers(len(systems)))]
-        if cls.startswith("integrator") and any(c["op"] == "d2c" and c["m"] == "zoh" for c in calls):
+        if cls.startswith("integrator") and any((c["op"] == "d2c" and c["m"] == "zoh") or c["op"] == "lti" for c in calls):
             continue          # outside the documented formula's domain (singular continuous A)
         key = tuple((c["src"], c["op"], c["m"], c["pw"]) for c in calls)
         run.case(("objects", cls, key), nontrivial=len(objs) >= 2, part="model objects")
@@ -665,6 +665,19 @@ def ssobjects_part(run, np, SSModel, quick):
             snaps = [snap(heap[0])]
             bad = None
             for k, c in enumerate(calls):
+                if c["op"] == "lti":
+                    # growth (query action of the spec): the continuous equivalent as a scipy lti object
+                    src_ = heap[c["src"] - 1]
+                    lt = src_.getlti()
+                    ref_ = src_ if not src_.h else src_.d2c()
+                    if not all(np.allclose(np.atleast_2d(getattr(lt, nm)), np.atleast_2d(getattr(ref_, nm)), rtol=1e-12, atol=1e-14) for nm in "ABCD"):
+                        run.deviation("SSObjects.Query", "getlti() of object %d is not the continuous equivalent (the model itself, or its default d2c())" % c["src"],
+                                      {"sys": cls, "calls": calls})
+                    for j, (mj, sj) in enumerate(zip(heap, snaps)):
+                        if not same(mj, sj):
+                            run.deviation("SSObjects.Query", "getlti() on object %d changed object %d" % (c["src"], j + 1), {"sys": cls, "calls": calls})
+                            snaps[j] = snap(mj)
+                    continue
                 r = conv(heap[c["src"] - 1], c["op"], c["m"], c["pw"], h, w)
                 if c["res"] == c["src"]:
                     if r is not heap[c["src"] - 1]:
